@@ -91,6 +91,7 @@ func execC16(c CaseC16) *Outcome {
 	}()
 
 	emitted := 0
+	foreign := ""
 	var got []int
 	overflowed := false
 	readOne := func(timeout time.Duration) bool {
@@ -99,7 +100,13 @@ func execC16(c CaseC16) *Outcome {
 			if !ok {
 				return false
 			}
-			got = append(got, e.(int))
+			v, isInt := e.(int)
+			if !isInt {
+				// not one of the emitted values (e.g. nil): recorded as a value no emitted event has
+				foreign = fmt.Sprintf("%#v", e)
+				v = -1
+			}
+			got = append(got, v)
 			return true
 		case <-time.After(timeout):
 			return false
@@ -153,6 +160,9 @@ func execC16(c CaseC16) *Outcome {
 	// nothing extra
 	if readOne(2 * time.Millisecond) {
 		return fail("subscriber received more events (%d) than were emitted (%d)", len(got), emitted)
+	}
+	if foreign != "" {
+		return fail("the subscriber received %s, which was never emitted (%d emitted, drainer held %d times)", foreign, emitted, heldCount)
 	}
 	for i, v := range got {
 		if v != i {
